@@ -299,20 +299,25 @@ def nan_mapping(ctx: Ctx):
 
 # --------------------------------------------------------------------------- 3
 def reshape(ctx: Ctx):
+    from ..stmts import atoms, match_any, resolver
+
     bm = ctx.repo.cls("cube.py", "_BaseMeasure")
-    e = expand(ctx.repo, bm, "raw_cube_array", stop=lambda m: True)
-    paths = strip_ifexp_paths(e)
-    guards = [u(g) for gs, _l in paths for g, _p in gs]
-    ok_none = "self._flat_values is None" in guards and any("len(self._flat_values) != np.prod(self._shape)" == g for g in guards)
-    leaf = u(paths[-1][1])
-    ok_leaf = leaf == "__mutated__(self._flat_values.reshape(self._shape))"
-    ctx.ob(
-        "reshape",
-        "cube.py::_BaseMeasure.raw_cube_array",
-        f"guards={sorted(set(guards))} leaf={leaf}",
-        "None when absent or when len(flat) != prod(shape); else flat.reshape(self._shape), flagged read-only",
-        ok_none and ok_leaf,
-    )
+    m = ctx.repo.lookup(bm, "raw_cube_array")
+    if m is None:
+        raise AnalysisError("_BaseMeasure.raw_cube_array vanished")
+    where = "cube.py::_BaseMeasure.raw_cube_array"
+    res = resolver(m.node)
+    # (a) the tensor is the flat payload reshaped to the shape of the dimensions
+    calls = [n for n in ast.walk(m.node) if isinstance(n, ast.Call) and isinstance(n.func, ast.Attribute) and n.func.attr == "reshape"]
+    cands = [v for c in calls for v in res(c)]
+    ok, why = match_any(cands, ["self._flat_values.reshape(self._shape)", "np.reshape(self._flat_values, self._shape)"])
+    ctx.ob("reshape", where + " [reshape]", [u(c) for c in cands][:3], "self._flat_values.reshape(self._shape)", ok, why or "flat payload reshaped to the shape of the (re-ordered) dimensions")
+    # (b) absent / unreshapeable payload -> None
+    tests = [a for n in ast.walk(m.node) if isinstance(n, (ast.If, ast.IfExp)) for a in atoms(n.test)]
+    cands = [v for t in tests for v in res(t)]
+    for want, why_ in (("self._flat_values is None", "measure absent"), ("len(self._flat_values) != np.prod(self._shape)", "payload cannot be reshaped")):
+        ok, why = match_any(cands, [want])
+        ctx.ob("reshape.guards", where + f" [{why_}]", [u(c) for c in cands][:4], want, ok, why or f"None when {why_}")
     e = expand(ctx.repo, bm, "_shape", stop=lambda m: True)
     ctx.check_expr("reshape.shape", "cube.py::_BaseMeasure._shape", e, "self._all_dimensions.shape")
     for cname in ("_OverlapMeasure", "_CovarianceMeasure"):
